@@ -144,6 +144,8 @@ pub struct Model {
     pub mode: QMode,
     /// number of pre-inserted vectors (ids 100.., alphabet cycled) before the explored history
     pub prefill: u8,
+    /// compare the batch entry points on every n-th state only (1 = every state)
+    pub batch_every: usize,
     pub sink: Mutex<BTreeMap<VKey, VEntry>>,
     pub stats: Mutex<BTreeMap<String, u64>>,
     pub witness: Mutex<BTreeMap<String, (usize, String)>>,
@@ -172,7 +174,7 @@ pub fn alphabet(dim: usize, reduced: bool) -> Vec<Vec<f32>> {
 
 impl Model {
     pub fn new(seed: u64, m: usize, dim: usize, nids: u8, reduced: bool, mode: QMode, prefill: u8) -> Model {
-        Model { seed, m, dim, nids, alpha: alphabet(dim, reduced), mode, prefill, sink: Mutex::new(BTreeMap::new()), stats: Mutex::new(BTreeMap::new()), witness: Mutex::new(BTreeMap::new()), witness_len: Mutex::new(BTreeMap::new()) }
+        Model { seed, m, dim, nids, alpha: alphabet(dim, reduced), mode, prefill, batch_every: 1, sink: Mutex::new(BTreeMap::new()), stats: Mutex::new(BTreeMap::new()), witness: Mutex::new(BTreeMap::new()), witness_len: Mutex::new(BTreeMap::new()) }
     }
     pub fn from_config(c: &Value) -> Model {
         let mut m = Model::new(
@@ -440,8 +442,8 @@ impl Model {
                 // The batch entry points are stateless wrappers (`par_iter().map(search)`), and a rayon hand-off costs
                 // more than all other observations of a state together: one metric per state (rotating with the
                 // history), the plain form always, one of the three variants rotating with the reference content.
-                let rot = sys.hist.len() + sys.refmap.iter().map(|(i, v)| *i as usize * 7 + *v as usize).sum::<usize>();
-                if b == 0 && mi == rot % METRICS.len() {
+                let rot = (vcore::hash_of(&sys.hist) >> 8) as usize; // deterministic selector derived from the history
+                if b == 0 && mi == rot % METRICS.len() && (rot / METRICS.len()) % self.batch_every == 0 {
                     let eq = |x: &Vec<Vec<(NodeId, f32)>>, y: &Vec<Vec<(NodeId, f32)>>| x.len() == y.len() && x.iter().zip(y).all(|(a, b)| a.len() == b.len() && a.iter().zip(b).all(|(p, q)| p.0 == q.0 && p.1.to_bits() == q.1.to_bits()));
                     let all: Vec<&[f32]> = sys.refmap.iter().map(|(id, vi)| self.vec_of(*id, *vi)).collect();
                     let k = size + 1;
@@ -451,7 +453,7 @@ impl Model {
                     if !eq(&bat, &one) {
                         viols.add(self.vkey("batch-mismatch", *metric, feature_set(&all), sys, "k>size", ""), || format!("batch_search(k={k}) = {bat:?} but one-by-one = {one:?}"));
                     }
-                    match (ix, (rot / METRICS.len()) % 3) {
+                    match (ix, (rot / (METRICS.len() * 16)) % 3) {
                         (Ix::H(h), 0) => {
                             let sl: Vec<&[f32]> = queries.iter().map(|q| q.as_slice()).collect();
                             let b2 = h.batch_search_slices(&sl, k);
